@@ -92,6 +92,9 @@ def case_st(draw):
     r2 = fmodel.render(prog2, fmodel.PLAIN)
     names = sorted(r.files)
     other = {n: r2.files[n2] for n, n2 in zip(names, sorted(r2.files))}
+    # unit names stay unique in every version of the workspace (ASSUMPTIONS): the units of the swapped-in program get a prefix
+    for u in sorted({sc.ent.name for sc in prog2.top_scopes}, key=len, reverse=True):
+        other = {n: re.sub(r"(?i)(?<![\w$])" + re.escape(u) + r"(?![\w$])", "o" + u, t) for n, t in other.items()}
     variants = variants_of(prog, r, other)
     extra = {"x_new0.f90": "module xnew0\n  implicit none\n  integer :: xv0\nend module xnew0\n",
              "x_new1.f90": "module xnew1\n  use xnew0\n  implicit none\n  integer :: xv1\ncontains\n  subroutine xs1()\n    xv1 = xv0\n  end subroutine xs1\nend module xnew1\n"}
@@ -102,7 +105,7 @@ def case_st(draw):
     names = sorted(files)
     # the history is built against a model of the client state so that every event is effective, and (half of the
     # time) concentrates on a group of files that depend on each other
-    groups = [["ze_ext.f90", "ze_use.f90", "za_first.f90"], ["zs_par.f90", "zs_sub.f90"], ["zi_inc.f90", "zi_main.f90"], ["zq_cfg.h", "zq_a.F90", "zq_b.F90"], sorted(r.files),
+    groups = [["ze_ext.f90", "ze_use.f90", "za_first.f90"], ["ze_ext.f90", "zf_leaf.f90"], ["ze_ext.f90", "ze_use.f90", "zf_leaf.f90"], ["zs_par.f90", "zs_sub.f90"], ["zi_inc.f90", "zi_main.f90"], ["zq_cfg.h", "zq_a.F90", "zq_b.F90"], sorted(r.files),
               sorted(r.files) + ["ze_ext.f90", "ze_use.f90"]]
     focus = draw(st.sampled_from([None, None, None] + groups))
     pool = (focus or names) + sorted(extra)
@@ -150,6 +153,9 @@ BUNDLE = {
     "ze_ext.f90": "module ze_base\n  implicit none\n  type :: ze_p\n    integer :: pc\n  contains\n    procedure :: pb => ze_impl\n  end type ze_p\ncontains\n  subroutine ze_impl(self)\n    class(ze_p), intent(inout) :: self\n    self%pc = 1\n  end subroutine ze_impl\nend module ze_base\n",
     "ze_use.f90": "module ze_child\n  use ze_base\n  implicit none\n  type, extends(ze_p) :: ze_c\n    integer :: cc\n  end type ze_c\n  type(ze_c) :: ze_obj\n  type(ze_p) :: ze_direct\ncontains\n  subroutine ze_go()\n    ze_obj%pc = ze_obj%cc\n    ze_direct%pc = 2\n    call ze_direct%pb()\n    call ze_obj%pb()\n    associate (zz => ze_obj%pc)\n      ze_obj%cc = zz\n    end associate\n  end subroutine ze_go\nend module ze_child\n",
 }
+# a third level of type extension in a file of its own: what the leaf inherits from the root must follow the root's file
+BUNDLE["zf_leaf.f90"] = ("module zf_leaf\n  use ze_child\n  implicit none\n  type, extends(ze_c) :: zf_l\n    integer :: lc\n  end type zf_l\n  type(zf_l) :: zf_obj\ncontains\n"
+                         "  subroutine zf_go()\n    zf_obj%pc = zf_obj%cc + zf_obj%lc\n    call zf_obj%pb()\n    zf_obj%\n  end subroutine zf_go\nend module zf_leaf\n")
 # two preprocessed sources reach one header with different macro tables: what the header contributes depends on its includer
 BUNDLE["zq_cfg.h"] = "#ifndef ZQ_PREC\n#define ZQ_PREC 4\n#endif\n#ifdef ZQ_FAST\n#define ZQ_MODE 2\n#else\n#define ZQ_MODE 1\n#endif\n"
 BUNDLE["zq_a.F90"] = ("#define ZQ_PREC 8\n#define ZQ_FAST\n#include \"zq_cfg.h\"\nmodule zq_a\n  implicit none\n  real(ZQ_PREC) :: zq_xa\n  integer :: zq_ma(ZQ_MODE)\n"
@@ -171,6 +177,7 @@ BUNDLE_VARIANTS = {
     "zq_cfg.h": [BUNDLE["zq_cfg.h"].replace("ZQ_PREC 4", "ZQ_PREC 16"), BUNDLE["zq_cfg.h"].replace("ZQ_MODE 1", "ZQ_MODE 3")],
     "zq_a.F90": [BUNDLE["zq_a.F90"].replace("#define ZQ_FAST\n", ""), BUNDLE["zq_a.F90"].replace("ZQ_PREC 8", "ZQ_PREC 2")],
     "zq_b.F90": [BUNDLE["zq_b.F90"].replace("#include", "#define ZQ_FAST\n#include")],
+    "zf_leaf.f90": [BUNDLE["zf_leaf.f90"].replace("integer :: lc", "integer :: lc\n    integer :: ld")],
     "za_first.f90": [BUNDLE["za_first.f90"].replace("qq => ze_obj%pc", "qq => ze_obj%cc"), BUNDLE["za_first.f90"].replace("use ze_child", "use ze_base")],
 }
 
